@@ -10,3 +10,4 @@ open Verif.Props.C08
 #print axioms decimal_grammar
 #print axioms decimal_shape
 #print axioms holds_sound
+#print axioms decimal_round
